@@ -117,10 +117,34 @@ func universe() *uni {
 	return u
 }
 
+// tinyUniverse is for the deep plans in the refcounting modes: two keys that
+// get the same value (the leaf's hash depends on the value only, so deleting
+// its only holder drops the stored leaf to count 0 and putting the value under
+// any key re-creates a node with the same hash) and one key sharing three
+// nibbles with the second.
+func tinyUniverse() *uni {
+	u := &uni{Name: "U3"}
+	u.KN = []string{"k1201", "k1234", "k1235"}
+	u.Keys = [][]byte{{0x12, 0x01}, {0x12, 0x34}, {0x12, 0x35}}
+	u.Vals = [][]byte{{0xaa}, {0xbb, 0xbb}}
+	u.VN = []string{"a", "b"}
+	u.QP = [][]byte{{}, {0x12}, {0x12, 0x34}, {0x13}}
+	return u
+}
+
+func universeByName(n string) *uni {
+	if n == "U3" {
+		return tinyUniverse()
+	}
+	return universe()
+}
+
 func (u *uni) ck(c []int8) string {
-	b := make([]byte, len(c))
-	for i, v := range c {
-		b[i] = byte(v + 1)
+	b := make([]byte, 0, len(c)+3)
+	b = append(b, u.Name...)
+	b = append(b, ':')
+	for _, v := range c {
+		b = append(b, byte(v+1))
 	}
 	return string(b)
 }
@@ -512,13 +536,14 @@ type stats struct {
 	tamperLists, tamperVerifies, tamperAccepted                 int64
 	queryContents, queryFinds, querySeeks                       int64
 	classes                                                     map[string]int64
+	perPart                                                     map[string]int64
 	roots                                                       map[util.Uint256]struct{}
 	states                                                      map[string]struct{}
 	nontrivial                                                  map[string]struct{}
 }
 
 func newStats() *stats {
-	return &stats{classes: map[string]int64{}, roots: map[util.Uint256]struct{}{}, states: map[string]struct{}{}, nontrivial: map[string]struct{}{}}
+	return &stats{perPart: map[string]int64{}, classes: map[string]int64{}, roots: map[util.Uint256]struct{}{}, states: map[string]struct{}{}, nontrivial: map[string]struct{}{}}
 }
 
 type global struct {
@@ -555,6 +580,9 @@ func (g *global) merge(s *stats) {
 	for k, v := range s.classes {
 		t.classes[k] += v
 	}
+	for k, v := range s.perPart {
+		t.perPart[k] += v
+	}
 	for k := range s.roots {
 		t.roots[k] = struct{}{}
 	}
@@ -570,6 +598,7 @@ func (g *global) merge(s *stats) {
 
 type caseRec struct {
 	Part    string   `json:"part"`
+	Uni     string   `json:"universe,omitempty"`
 	Mode    byte     `json:"mode"`
 	Ops     []opSpec `json:"ops,omitempty"`
 	Names   []string `json:"op_names,omitempty"`
@@ -933,12 +962,16 @@ func (e *explorer) observe(ops []opSpec, in *inst, prev []int8, s *stats) (kind,
 // Returns false if it must not be extended.
 func (e *explorer) node(ops []opSpec, s *stats) bool {
 	s.nodes++
+	s.perPart[e.part]++
 	u := e.u
 	last := ops[len(ops)-1]
 	report := func(kind, detail string, in *inst) {
 		names := opNames(u, ops)
 		key := fmt.Sprintf("%s:%s:%s", kind, modeName(e.mode), strings.Join(names, ","))
-		rec := caseRec{Part: e.part, Mode: byte(e.mode), Ops: ops, Names: names, Broken: kind, Detail: detail}
+		if u.Name != "U8" {
+			key = fmt.Sprintf("%s:%s/%s:%s", kind, modeName(e.mode), u.Name, strings.Join(names, ","))
+		}
+		rec := caseRec{Part: e.part, Uni: u.Name, Mode: byte(e.mode), Ops: ops, Names: names, Broken: kind, Detail: detail}
 		if in != nil {
 			rec.Content = u.show(in.c)
 			rec.Shape = u.ref(in.c).shape
@@ -961,7 +994,7 @@ func (e *explorer) node(ops []opSpec, s *stats) bool {
 	kind, detail := e.observe(ops, in, prev, s)
 	if kind == "fresh-build" {
 		// a property of the content, not of this history
-		e.g.r.Violation("fresh-build:"+u.show(in.c), caseRec{Part: e.part, Mode: byte(e.mode), Ops: ops, Names: opNames(u, ops), Broken: kind, Detail: detail, Content: u.show(in.c)})
+		e.g.r.Violation("fresh-build:"+u.show(in.c), caseRec{Part: e.part, Uni: u.Name, Mode: byte(e.mode), Ops: ops, Names: opNames(u, ops), Broken: kind, Detail: detail, Content: u.show(in.c)})
 		return false
 	}
 	if kind != "" {
@@ -1002,6 +1035,23 @@ func (e *explorer) node(ops []opSpec, s *stats) bool {
 	}
 	return true
 }
+
+// exact evaluates every history of exactly length l that extends ops (shorter
+// ones are evaluated in earlier phases).
+func (e *explorer) exact(ops []opSpec, alpha []opSpec, l int, s *stats) {
+	if e.g.r.Expired() || e.g.r.TooMany() {
+		return
+	}
+	if len(ops) == l {
+		e.node(ops, s)
+		return
+	}
+	for _, o := range alpha {
+		e.exact(append(ops[:len(ops):len(ops)], o), alpha, l, s)
+	}
+}
+
+const lastPhase = 8
 
 func (e *explorer) dfs(ops []opSpec, alpha []opSpec, depth int, s *stats) {
 	if e.g.r.Expired() || e.g.r.TooMany() {
@@ -1614,7 +1664,7 @@ func allContents(u *uni, keys []int, vals []int8) [][]int8 {
 
 type job struct {
 	name  string
-	phase int // 1: histories of one or two steps (run first, so that the first counterexample is short)
+	phase int // 1: histories of one or two steps, 2..: longer ones of the deep plans by length, lastPhase: the rest (shortest counterexample first)
 	run   func(s *stats)
 }
 
@@ -1675,7 +1725,11 @@ func TestCheck(t *testing.T) {
 
 	// ---- parts A and B as one pool of jobs
 	var jobs []job
+	var addSeqU func(u *uni, part string, mode mpt.TrieMode, alpha []opSpec, depth int)
 	addSeq := func(part string, mode mpt.TrieMode, alpha []opSpec, depth int) {
+		addSeqU(u, part, mode, alpha, depth)
+	}
+	addSeqU = func(u *uni, part string, mode mpt.TrieMode, alpha []opSpec, depth int) {
 		e := &explorer{g: g, u: u, mode: mode, part: part}
 		for _, o1 := range alpha {
 			o1 := o1
@@ -1690,11 +1744,27 @@ func TestCheck(t *testing.T) {
 		}
 		for _, o1 := range alpha {
 			for _, o2 := range alpha {
-				pre := []opSpec{o1, o2}
-				jobs = append(jobs, job{part, 2, func(s *stats) {
-					if depth < 3 {
-						return
+				if depth < 3 {
+					continue
+				}
+				if depth >= 6 {
+					// long plans: by length (each length is its own phase, the
+					// last one runs with everything else), in small jobs
+					for _, o3 := range alpha {
+						pre := []opSpec{o1, o2, o3}
+						for l := 3; l <= depth; l++ {
+							l := l
+							ph := l - 1
+							if l == depth {
+								ph = lastPhase
+							}
+							jobs = append(jobs, job{part, ph, func(s *stats) { e.exact(pre, alpha, l, s) }})
+						}
 					}
+					continue
+				}
+				pre := []opSpec{o1, o2}
+				jobs = append(jobs, job{part, lastPhase, func(s *stats) {
 					for _, o3 := range alpha {
 						e.dfs(append(pre[:2:2], o3), alpha, depth, s)
 					}
@@ -1713,6 +1783,26 @@ func TestCheck(t *testing.T) {
 	alphaRC := append(singleOps([]int{0, 1, 2, 3, 4, 5}, []int{0}), persistOps()...)
 	addSeq("A-rc", mpt.ModeLatest, alphaRC, vk.Pick(r, 3, 4))
 	addSeq("A-gc", mpt.ModeGC, alphaRC, vk.Pick(r, 3, 4))
+	// deep histories over a tiny universe in the refcounting modes (ModeAll as
+	// control): a stored node dropping to count 0 at one Flush and re-created
+	// with the same hash by a later step must be readable after the next
+	// Flush + collapse/reload. Flush heights increase by one per Flush.
+	{
+		u3 := tinyUniverse()
+		alpha := []opSpec{
+			{K: "put", Key: 0, Val: 0}, {K: "put", Key: 1, Val: 0}, {K: "del", Key: 0}, {K: "del", Key: 1},
+			{K: "batch", Batch: []int8{2, 0, 3}}, // PutBatch{k1201=a,k1235=b}
+			{K: "flush"}, {K: "collapse", D: 0}, {K: "reload"},
+		}
+		if thorough {
+			alpha = append(alpha, opSpec{K: "batch", Batch: []int8{1, 2, 1}}, // PutBatch{k1201=del,k1234=a,k1235=del}
+				opSpec{K: "put", Key: 2, Val: 0}, opSpec{K: "del", Key: 2})
+		}
+		d := vk.Pick(r, 6, 6)
+		addSeqU(u3, "A-deep-gc", mpt.ModeGC, alpha, d)
+		addSeqU(u3, "A-deep-rc", mpt.ModeLatest, alpha, d)
+		addSeqU(u3, "A-deep-all", mpt.ModeAll, alpha, d-1)
+	}
 
 	// part B: base (puts only) x persistence step x batch
 	addPairs := func(part string, keys []int, mids [][]opSpec) {
@@ -1728,7 +1818,7 @@ func TestCheck(t *testing.T) {
 		}})
 		for _, b1 := range bases {
 			b1 := b1
-			jobs = append(jobs, job{part, 2, func(s *stats) {
+			jobs = append(jobs, job{part, lastPhase, func(s *stats) {
 				if batchSize(b1) > 0 {
 					if !e.node([]opSpec{b1}, s) {
 						return
@@ -1772,7 +1862,7 @@ func TestCheck(t *testing.T) {
 					continue
 				}
 				pre := []opSpec{b1, b2}
-				jobs = append(jobs, job{part, 2, func(s *stats) {
+				jobs = append(jobs, job{part, lastPhase, func(s *stats) {
 					for _, b3 := range bs {
 						if batchSize(b3) == 0 {
 							continue
@@ -1807,8 +1897,8 @@ func TestCheck(t *testing.T) {
 	// phase 1 first; then round-robin over the parts, so that a run cut by the
 	// deadline has touched all of them
 	before := r.NViolations()
-	for phase := 1; phase <= 2; phase++ {
-		if phase == 2 && r.NViolations() > before {
+	for phase := 1; phase <= lastPhase; phase++ {
+		if phase > 1 && r.NViolations() > before {
 			r.Capped() // short counterexamples exist: longer histories are not explored
 			break
 		}
@@ -1878,6 +1968,7 @@ func TestCheck(t *testing.T) {
 		"find_on_unflushed_trie":                        int(s.findOnDirty),
 		"reads_broken_after_find_on_unflushed_trie":     int(s.findBreaksReads),
 		"transition_classes":                            classes,
+		"transitions_per_plan":                          s.perPart,
 		"bounds":                                        bounds,
 		"universe":                                      fmt.Sprintf("keys %v, values a=aa b=bbbb empty big=%d bytes", u.KN, len(bigVal)),
 	}
@@ -1926,6 +2017,7 @@ func replay(g *global, u *uni) {
 		}
 		g.flushQueryFindings()
 	default:
+		u = universeByName(c.Uni)
 		e := &explorer{g: g, u: u, mode: mpt.TrieMode(c.Mode), part: c.Part}
 		outs := map[string]bool{}
 		for i := 0; i < 5; i++ {
